@@ -14,5 +14,6 @@ export CARGO_NET_OFFLINE=true
 ./translator/target/release/rs2v pathreq /repo coq/Gen/PathReqGen.v
 ./translator/target/release/rs2v ratchet /repo coq/Gen/RatchetGen.v
 ./translator/target/release/rs2v admission /repo coq/Gen/AdmissionGen.v
+./translator/target/release/rs2v resume /repo coq/Gen/ResumeGen.v
 (cd coq && coq_makefile -f _CoqProject -o Makefile >/dev/null && timeout 3000 make -j16 >/dev/null)
 echo setup done
